@@ -98,6 +98,8 @@ var Inl = []string{
 	"[\x00a\x00]: /u", "[\x00a\x00]", "\x00a\x00", "[a\x00\x00b\x00]", "`\x00 \x00`", "<a\x00b\x00>", "(/u\x00v\x00 \"t\x00\x00u\x00\")",
 	// a backslash before a non-ASCII character, NUL or invalid byte, in every place escapes are processed
 	"[t](/u\\é)", "[t](/u \"a\\猫\")", "[a\\é]: /u", "[a\\é]", "<a b=\"\\é\">", "`\\é`", "\\\x00", "[t](<\\é>)", "![\\é](/s '\\\x00')", "\\\xff", "[r]: /u\\é \"t\\ß\"\n",
+	// a backslash directly before the line ending, inside every construct that may span lines
+	"[t](<b\\\nc>)", "[r]: <b\\\nc>", "![i](<x\\\ny> 't')", "[t](/u 'a\\\nb')", "[t](/u\\\n)", "<a b=\"c\\\nd\">", "`a\\\nb`", "[a\\\nb]", "[a\\\nb]: /u", "[t][a\\\nb]", "<!-- a\\\nb -->", "[r]: /u \"t\\\nu\"",
 	// constructs over three lines (a middle line that lies wholly inside the construct)
 	"[a\nb\nc]: /u", "[t][a\nb\nc]", "[a\nb\nc]", "`a\nb\nc`", "<a\nb\nc>", "<!-- a\nb\nc -->", "[t](/u\n'x\ny')", "[t\nu\nv](/w)", "*a\nb\nc*",
 	// a NUL first on a continuation line of a multi-line label, title, tag or code span (behind whatever prefix the container has)
